@@ -65,6 +65,16 @@ def Succs (D : Int → Prop) : List Int → Prop
   | [a] => D a
   | a :: b :: rest => D a ∧ a < b ∧ (∀ t', D t' → ¬ (a < t' ∧ t' < b)) ∧ Succs D (b :: rest)
 
+/-- what the arguments of `@time_trigger` ask for: a run at definition iff there is a `"startup"` entry or the decorator
+    has no arguments at all, a run at removal iff there is a `"shutdown"` entry, and the time specifications in order -/
+def wantsStartup : Option (List TArg) → Bool
+  | none => true
+  | some args => args.contains .startup
+
+def wantsShutdown : Option (List TArg) → Bool
+  | none => false
+  | some args => args.contains .shutdown
+
 /-- the float quotient is the mathematical floor -/
 def ExactDiv (P : Params) : Prop := ∀ a per : Int, 0 < per → P.fdiv a per = a / per
 
